@@ -1,5 +1,494 @@
-//! tokio-driven executor / Uni / Multi drivers -- filled in later
-pub fn main(_cases: &str, _out: &str) {
-    eprintln!("executor driver: not built yet");
-    std::process::exit(2);
+//! tokio-driven drivers for the stream executors and for `Uni` / `Multi` life cycles (C06, C11, C12).
+//!
+//! usage: rm-verif-harness exec <cases.ndjson> <trace-out.ndjson>
+//! Every case runs on its own runtime (current-thread with paused clock -- deterministic, virtual time -- or multi-thread);
+//! item futures wait on gates owned by this driver, so "in flight" lasts until the driver says otherwise and nothing depends on timing.
+
+use crate::chan_suts::Held;
+use futures::stream::{self, StreamExt};
+use reactive_mutiny::prelude::advanced::*;
+use reactive_mutiny::stream_executor::{StreamExecutor, StreamExecutorStats};
+use reactive_mutiny::uni::GenericUni;
+use serde_json::{json, Value};
+use std::collections::HashMap;
+use std::future::Future;
+use std::io::Write;
+use std::sync::atomic::{AtomicI64, AtomicU64, Ordering::SeqCst};
+use std::sync::{Arc, Mutex};
+use std::time::Duration;
+use tokio::sync::Semaphore;
+
+type BoxErr = Box<dyn std::error::Error + Send + Sync>;
+
+#[derive(Clone)]
+pub struct Log {
+    ev: Arc<Mutex<Vec<Value>>>,
+    inflight: Arc<AtomicI64>,
+    max_inflight: Arc<AtomicI64>,
+    seq: Arc<AtomicU64>,
+}
+
+impl Log {
+    fn new() -> Self {
+        Log { ev: Arc::new(Mutex::new(vec![])), inflight: Arc::new(AtomicI64::new(0)), max_inflight: Arc::new(AtomicI64::new(0)), seq: Arc::new(AtomicU64::new(0)) }
+    }
+    fn push(&self, k: &str, a: u64, b: u64, x: Value) {
+        self.seq.fetch_add(1, SeqCst);
+        self.ev.lock().unwrap().push(json!({"k": k, "t": 0, "fn": "", "fld": "", "o": "", "a": a, "b": b, "r": 0, "ok": true, "obj": 0, "x": x}));
+    }
+    fn enter(&self) {
+        let n = self.inflight.fetch_add(1, SeqCst) + 1;
+        self.max_inflight.fetch_max(n, SeqCst);
+    }
+    fn leave(&self) {
+        self.inflight.fetch_sub(1, SeqCst);
+    }
+}
+
+/// logs the cancellation of an item future that is dropped before it completed
+struct Guard {
+    log: Log,
+    i: u64,
+    ex: u64,
+    done: bool,
+}
+impl Drop for Guard {
+    fn drop(&mut self) {
+        if !self.done {
+            self.log.leave();
+            self.log.push("xcancel", self.i, self.ex, json!({}));
+        }
+    }
+}
+
+#[derive(Debug)]
+struct ItemErr(u64);
+impl std::fmt::Display for ItemErr {
+    fn fmt(&self, f: &mut std::fmt::Formatter<'_>) -> std::fmt::Result {
+        write!(f, "item-{}", self.0)
+    }
+}
+impl std::error::Error for ItemErr {}
+
+fn err_index(e: &BoxErr) -> u64 {
+    e.to_string().trim_start_matches("item-").parse().unwrap_or(9999)
+}
+
+/// the future an item of a futures pipeline is: start, wait for the gate (or for ever, if `never`), end
+async fn item_future(log: Log, i: u64, ex: u64, gate: Arc<Semaphore>, never: bool, fails: bool) -> Result<u64, BoxErr> {
+    log.enter();
+    log.push("xstart", i, ex, json!({}));
+    let mut g = Guard { log: log.clone(), i, ex, done: false };
+    if never {
+        futures::future::pending::<()>().await;
+    } else {
+        gate.acquire().await.unwrap().forget();
+    }
+    g.done = true;
+    log.leave();
+    log.push("xend", i, ex, json!({"out": if fails { "err" } else { "ok" }}));
+    if fails {
+        Err(Box::new(ItemErr(i)))
+    } else {
+        Ok(i)
+    }
+}
+
+fn close_event(log: &Log, ex: u64, stats: &Arc<dyn StreamExecutorStats + Send + Sync>) {
+    let (ok, _) = stats.ok_events_avg_future_duration().probe();
+    let (failed, _) = stats.failed_events_avg_future_duration().probe();
+    let (timedout, _) = stats.timed_out_events_avg_future_duration().probe();
+    let status = format!("{:?}", stats.executor_status().load(std::sync::atomic::Ordering::Relaxed));
+    let (s, f) = (stats.execution_start_delta_nanos(), stats.execution_finish_delta_nanos());
+    log.push("xclose", ex, 0, json!({"ok": ok, "failed": failed, "timedout": timedout, "status": status, "finish_ge_start": f >= s && s != u64::MAX && f != u64::MAX}));
+}
+
+struct Case {
+    kind: String,
+    timeout: bool,
+    limit: u32,
+    items: Vec<String>,
+    release: Vec<usize>,
+    multi_rt: bool,
+}
+
+fn is_slow(k: &str) -> bool {
+    k == "slow" || k == "slowerr"
+}
+fn is_err(k: &str) -> bool {
+    k == "err" || k == "slowerr"
+}
+
+fn tick(multi_rt: bool) -> Duration {
+    if multi_rt {
+        Duration::from_millis(2)
+    } else {
+        Duration::from_millis(10)
+    }
+}
+fn fut_timeout(multi_rt: bool) -> Duration {
+    if multi_rt {
+        Duration::from_millis(150)
+    } else {
+        Duration::from_secs(1)
+    }
+}
+
+// ---------------------------------------------------------------------------------------------
+// (A) a StreamExecutor fed from a fixed item sequence
+
+async fn run_exec<const I: usize>(case: &Case, log: Log) {
+    let n = case.items.len();
+    let gates: Vec<Arc<Semaphore>> = (0..n).map(|_| Arc::new(Semaphore::new(0))).collect();
+    let timeout = if case.timeout { fut_timeout(case.multi_rt) } else { Duration::ZERO };
+    let ex = StreamExecutor::<I>::with_futures_timeout("exec", timeout);
+    let (tx, rx) = tokio::sync::oneshot::channel::<()>();
+    let tx = Arc::new(Mutex::new(Some(tx)));
+    let log_c = log.clone();
+    let on_close = move |stats: Arc<dyn StreamExecutorStats + Send + Sync>| {
+        let tx = Arc::clone(&tx);
+        async move {
+            close_event(&log_c, 0, &stats);
+            if let Some(tx) = tx.lock().unwrap().take() {
+                let _ = tx.send(());
+            }
+        }
+    };
+    let log_e = log.clone();
+    let items = case.items.clone();
+    let with_timeout = case.timeout;
+    match case.kind.as_str() {
+        "fut_fallible" => {
+            let l = log.clone();
+            let g = gates.clone();
+            let st = stream::iter(items.into_iter().enumerate()).map(move |(i, k)| item_future(l.clone(), i as u64, 0, g[i].clone(), with_timeout && is_slow(&k), is_err(&k)));
+            let on_err = move |e: BoxErr| {
+                let log_e = log_e.clone();
+                async move { log_e.push("xerr", err_index(&e), 0, json!({})) }
+            };
+            ex.spawn_executor(case.limit, on_err, on_close, st);
+        }
+        "fut" => {
+            let l = log.clone();
+            let g = gates.clone();
+            let st = stream::iter(items.into_iter().enumerate()).map(move |(i, k)| {
+                let f = item_future(l.clone(), i as u64, 0, g[i].clone(), with_timeout && is_slow(&k), false);
+                async move { f.await.unwrap_or(0) }
+            });
+            ex.spawn_futures_executor(case.limit, on_close, st);
+        }
+        "fallible" => {
+            let l = log.clone();
+            let st = stream::iter(items.into_iter().enumerate()).map(move |(i, k)| {
+                l.push("xstart", i as u64, 0, json!({}));
+                l.push("xend", i as u64, 0, json!({"out": if is_err(&k) { "err" } else { "ok" }}));
+                if is_err(&k) {
+                    Err(Box::new(ItemErr(i as u64)) as BoxErr)
+                } else {
+                    Ok(i as u64)
+                }
+            });
+            let on_err = move |e: BoxErr| log_e.push("xerr", err_index(&e), 0, json!({}));
+            ex.spawn_fallibles_executor(case.limit, on_err, on_close, st);
+        }
+        "nonfut_fallible" => {
+            let l = log.clone();
+            let st = stream::iter(items.into_iter().enumerate()).map(move |(i, k)| {
+                l.push("xstart", i as u64, 0, json!({}));
+                l.push("xend", i as u64, 0, json!({"out": if is_err(&k) { "err" } else { "ok" }}));
+                if is_err(&k) {
+                    Err(Box::new(ItemErr(i as u64)) as BoxErr)
+                } else {
+                    Ok(i as u64)
+                }
+            });
+            ex.spawn_non_futures_executor(case.limit, on_close, st);
+        }
+        _ => {
+            let l = log.clone();
+            let st = stream::iter(items.into_iter().enumerate()).map(move |(i, _k)| {
+                l.push("xstart", i as u64, 0, json!({}));
+                l.push("xend", i as u64, 0, json!({"out": "ok"}));
+                i as u64
+            });
+            ex.spawn_non_futures_non_fallibles_executor(case.limit, on_close, st);
+        }
+    }
+    for &i in case.release.iter() {
+        tokio::time::sleep(tick(case.multi_rt)).await;
+        if i < n {
+            gates[i].add_permits(1);
+        }
+    }
+    let waited = tokio::time::timeout(if case.multi_rt { Duration::from_secs(5) } else { Duration::from_secs(120) }, rx).await;
+    if waited.is_err() {
+        log.push("xnoclose", 0, 0, json!({}));
+    }
+    // a second (illegal) close callback or a late item would show up here
+    tokio::time::sleep(tick(case.multi_rt) * 5).await;
+}
+
+// ---------------------------------------------------------------------------------------------
+// (B) a Uni over a real channel: events, gated pipelines, graceful close
+
+struct UniCase {
+    exec: String,
+    timeout: bool,
+    limit: u32,
+    events: Vec<u64>,
+    slow: Vec<u64>,
+    fails: Vec<u64>,
+    multi_rt: bool,
+    close: bool,
+}
+
+async fn run_uni<U>(case: &UniCase, log: Log)
+where
+    U: GenericUni<ItemType = u64> + Send + Sync + 'static,
+    U::DerivedItemType: Held + Send + Sync,
+{
+    let mut gates: HashMap<u64, Arc<Semaphore>> = case.events.iter().map(|v| (*v, Arc::new(Semaphore::new(0)))).collect();
+    gates.insert(7_777, Arc::new(Semaphore::new(1)));   // the event sent after the close: not gated (and never to be delivered)
+    let gates = Arc::new(gates);
+    let timeout = if case.timeout { fut_timeout(case.multi_rt) } else { Duration::ZERO };
+    let log_c = log.clone();
+    let on_close = move |stats: Arc<dyn StreamExecutorStats + Send + Sync>| {
+        let log_c = log_c.clone();
+        async move {
+            close_event(&log_c, 0, &stats);
+            log_c.push("xuniclose", 0, 0, json!({}));
+        }
+    };
+    let log_e = log.clone();
+    let slow = Arc::new(case.slow.clone());
+    let fails = Arc::new(case.fails.clone());
+    let with_timeout = case.timeout;
+    let uni = U::new("uni");
+    let uni: Arc<U> = match case.exec.as_str() {
+        "fut_fallible" => {
+            let (l, g, sl, fl) = (log.clone(), Arc::clone(&gates), Arc::clone(&slow), Arc::clone(&fails));
+            let on_err = move |e: BoxErr| {
+                let log_e = log_e.clone();
+                async move { log_e.push("xerr", err_index(&e), 0, json!({})) }
+            };
+            uni.spawn_executors(case.limit, timeout, move |st| {
+                let (l, g, sl, fl) = (l.clone(), Arc::clone(&g), Arc::clone(&sl), Arc::clone(&fl));
+                st.map(move |ev| {
+                    let v = ev.val();
+                    drop(ev);
+                    item_future(l.clone(), v, 0, g[&v].clone(), with_timeout && sl.contains(&v), fl.contains(&v))
+                })
+            }, on_err, on_close)
+        }
+        "fut" => {
+            let (l, g, sl) = (log.clone(), Arc::clone(&gates), Arc::clone(&slow));
+            uni.spawn_futures_executors(case.limit, timeout, move |st| {
+                let (l, g, sl) = (l.clone(), Arc::clone(&g), Arc::clone(&sl));
+                st.map(move |ev| {
+                    let v = ev.val();
+                    drop(ev);
+                    let f = item_future(l.clone(), v, 0, g[&v].clone(), with_timeout && sl.contains(&v), false);
+                    async move { f.await.unwrap_or(0) }
+                })
+            }, on_close)
+        }
+        "fallible" => {
+            let (l, fl) = (log.clone(), Arc::clone(&fails));
+            let on_err = move |e: BoxErr| log_e.push("xerr", err_index(&e), 0, json!({}));
+            uni.spawn_fallibles_executors(case.limit, move |st| {
+                let (l, fl) = (l.clone(), Arc::clone(&fl));
+                st.map(move |ev| {
+                    let v = ev.val();
+                    l.push("xstart", v, 0, json!({}));
+                    l.push("xend", v, 0, json!({"out": if fl.contains(&v) { "err" } else { "ok" }}));
+                    if fl.contains(&v) {
+                        Err(Box::new(ItemErr(v)) as BoxErr)
+                    } else {
+                        Ok(v)
+                    }
+                })
+            }, on_err, on_close)
+        }
+        _ => {
+            let l = log.clone();
+            uni.spawn_non_futures_non_fallibles_executors(case.limit, move |st| {
+                let l = l.clone();
+                st.map(move |ev| {
+                    let v = ev.val();
+                    l.push("xstart", v, 0, json!({}));
+                    l.push("xend", v, 0, json!({"out": "ok"}));
+                    v
+                })
+            }, on_close)
+        }
+    };
+    let t = tick(case.multi_rt);
+    for v in case.events.iter() {
+        let ok = matches!(uni.send(*v), keen_retry::RetryResult::Ok { .. });
+        log.push("xsend", *v, 0, json!({"ok": ok}));
+        tokio::time::sleep(t).await;
+    }
+    // let the executors pull what their concurrency limits allow
+    tokio::time::sleep(t * 10).await;
+    if case.close {
+        let (u2, l2) = (Arc::clone(&uni), log.clone());
+        let closer = tokio::spawn(async move {
+            l2.push("xclosecall", 0, 0, json!({}));
+            let r = u2.close(Duration::ZERO).await;
+            l2.push("xcloseret", 0, 0, json!({"r": r, "pending": u2.pending_items_count()}));
+        });
+        // plenty of (virtual) time for a close that does not wait
+        tokio::time::sleep(if case.multi_rt { Duration::from_millis(300) } else { Duration::from_secs(10) }).await;
+        for v in case.events.iter() {
+            if !(with_timeout && case.slow.contains(v)) {
+                gates[v].add_permits(1);
+                tokio::time::sleep(t).await;
+            }
+        }
+        if tokio::time::timeout(if case.multi_rt { Duration::from_secs(5) } else { Duration::from_secs(300) }, closer).await.is_err() {
+            log.push("xnocloseret", 0, 0, json!({}));
+        }
+        tokio::time::sleep(t * 20).await;
+        // afterwards: no stream left, not open; a later send must not be delivered to anybody
+        let _ = uni.send(7_777);
+        tokio::time::sleep(t * 5).await;
+    } else {
+        for v in case.events.iter() {
+            gates[v].add_permits(1);
+            tokio::time::sleep(t).await;
+        }
+        tokio::time::sleep(t * 10).await;
+    }
+}
+
+macro_rules! uni_by_chan {
+    ($chan: expr, $s: expr, $case: expr, $log: expr) => {
+        match ($chan, $s) {
+            ("move_atomic", 1) => run_uni::<UniMoveAtomic<u64, 4, 1, 7>>($case, $log).await,
+            ("move_atomic", 2) => run_uni::<UniMoveAtomic<u64, 4, 2, 7>>($case, $log).await,
+            ("move_fullsync", 1) => run_uni::<UniMoveFullSync<u64, 4, 1, 7>>($case, $log).await,
+            ("move_fullsync", 2) => run_uni::<UniMoveFullSync<u64, 4, 2, 7>>($case, $log).await,
+            ("move_crossbeam", 1) => run_uni::<UniMoveCrossbeam<u64, 4, 1, 7>>($case, $log).await,
+            ("move_crossbeam", 2) => run_uni::<UniMoveCrossbeam<u64, 4, 2, 7>>($case, $log).await,
+            ("zc_atomic", 1) => run_uni::<UniZeroCopyAtomic<u64, 4, 1, 7>>($case, $log).await,
+            ("zc_atomic", 2) => run_uni::<UniZeroCopyAtomic<u64, 4, 2, 7>>($case, $log).await,
+            ("zc_fullsync", 1) => run_uni::<UniZeroCopyFullSync<u64, 4, 1, 0>>($case, $log).await,
+            ("zc_fullsync", 2) => run_uni::<UniZeroCopyFullSync<u64, 4, 2, 0>>($case, $log).await,
+            other => panic!("unknown uni channel {:?}", other),
+        }
+    };
+}
+
+// ---------------------------------------------------------------------------------------------
+
+fn strs(v: &Value) -> Vec<String> {
+    v.as_array().map(|a| a.iter().map(|x| x.as_str().unwrap_or("").to_string()).collect()).unwrap_or_default()
+}
+fn nums(v: &Value) -> Vec<u64> {
+    v.as_array().map(|a| a.iter().map(|x| x.as_u64().unwrap_or(0)).collect()).unwrap_or_default()
+}
+
+fn run_case(c: &Value) -> (Vec<Value>, Value) {
+    let log = Log::new();
+    let multi_rt = c["runtime"].as_str().unwrap_or("current") == "multi";
+    let rt = if multi_rt {
+        tokio::runtime::Builder::new_multi_thread().worker_threads(4).enable_time().build().unwrap()
+    } else {
+        tokio::runtime::Builder::new_current_thread().enable_time().start_paused(true).build().unwrap()
+    };
+    let fam = c["fam"].as_str().unwrap_or("exec").to_string();
+    let l2 = log.clone();
+    let c2 = c.clone();
+    let res = std::panic::catch_unwind(std::panic::AssertUnwindSafe(|| {
+        rt.block_on(async move {
+            match fam.as_str() {
+                "exec" => {
+                    let case = Case {
+                        kind: c2["kind"].as_str().unwrap().to_string(),
+                        timeout: c2["timeout"].as_bool().unwrap_or(false),
+                        limit: c2["limit"].as_u64().unwrap_or(1) as u32,
+                        items: strs(&c2["items"]),
+                        release: nums(&c2["release"]).into_iter().map(|x| x as usize).collect(),
+                        multi_rt,
+                    };
+                    match c2["instr"].as_u64().unwrap_or(7) {
+                        0 => run_exec::<0>(&case, l2).await,
+                        32 => run_exec::<32>(&case, l2).await,
+                        103 => run_exec::<103>(&case, l2).await,
+                        _ => run_exec::<7>(&case, l2).await,
+                    }
+                }
+                "uni" => {
+                    let case = UniCase {
+                        exec: c2["kind"].as_str().unwrap().to_string(),
+                        timeout: c2["timeout"].as_bool().unwrap_or(false),
+                        limit: c2["limit"].as_u64().unwrap_or(1) as u32,
+                        events: nums(&c2["events"]),
+                        slow: nums(&c2["slow"]),
+                        fails: nums(&c2["fails"]),
+                        multi_rt,
+                        close: c2["close"].as_bool().unwrap_or(true),
+                    };
+                    let chan = c2["chan"].as_str().unwrap().to_string();
+                    let s = c2["s"].as_u64().unwrap_or(1);
+                    uni_by_chan!(chan.as_str(), s, &case, l2)
+                }
+                "multi" => crate::exec_multi::run(&c2, l2, multi_rt).await,
+                other => panic!("unknown family {other}"),
+            }
+        })
+    }));
+    if res.is_err() {
+        log.push("panic", 0, 0, json!("driver or code under test panicked"));
+    }
+    drop(rt);
+    let evs = log.ev.lock().unwrap().clone();
+    let fin = json!({"hard": false, "max_inflight": log.max_inflight.load(SeqCst), "inflight_end": log.inflight.load(SeqCst)});
+    (evs, fin)
+}
+
+pub fn log_push(log: &Log, k: &str, a: u64, b: u64, x: Value) {
+    log.push(k, a, b, x)
+}
+pub fn log_close(log: &Log, ex: u64, stats: &Arc<dyn StreamExecutorStats + Send + Sync>) {
+    close_event(log, ex, stats)
+}
+pub fn mk_item(log: Log, i: u64, ex: u64, gate: Arc<Semaphore>, never: bool, fails: bool) -> impl Future<Output = Result<u64, BoxErr>> {
+    item_future(log, i, ex, gate, never, fails)
+}
+pub fn err_idx(e: &BoxErr) -> u64 {
+    err_index(e)
+}
+
+pub fn main(cases_path: &str, out_path: &str) {
+    let input = std::fs::read_to_string(cases_path).expect("cases file");
+    let mut out = std::io::BufWriter::new(std::fs::File::create(out_path).expect("out"));
+    let mut meta = std::io::BufWriter::new(std::fs::File::create(format!("{out_path}.runs")).expect("runs"));
+    let mut line = 0u64;
+    for (n, l) in input.lines().enumerate() {
+        if l.trim().is_empty() {
+            continue;
+        }
+        let c: Value = serde_json::from_str(l).expect("case json");
+        let id = c["id"].as_str().map(|s| s.to_string()).unwrap_or(format!("case{n}"));
+        let (evs, fin) = run_case(&c);
+        writeln!(meta, "{}", json!({"scn": id, "run": 1, "line": line + 1, "outcome": "complete", "choices": [], "finals": [], "diverged": -1, "final": fin})).unwrap();
+        let mut x = c.clone();
+        if let Some(o) = x.as_object_mut() {
+            o.insert("scn".into(), json!(id));
+            o.insert("run".into(), json!(1));
+            o.insert("origin".into(), json!(0));
+            o.insert("outcome".into(), json!("complete"));
+        }
+        writeln!(out, "{}", json!({"k":"reset","t":-1,"fn":"","fld":"","o":"","a":0,"b":0,"r":0,"ok":true,"obj":0,"x":x})).unwrap();
+        line += 1;
+        for e in evs.iter() {
+            writeln!(out, "{}", e).unwrap();
+            line += 1;
+        }
+        writeln!(out, "{}", json!({"k":"final","t":-1,"fn":"","fld":"","o":"","a":0,"b":0,"r":0,"ok":true,"obj":0,"x":fin})).unwrap();
+        line += 1;
+    }
+    out.flush().unwrap();
+    meta.flush().unwrap();
 }
